@@ -17,6 +17,8 @@ pub struct Io {
     pub log: Option<std::path::PathBuf>,
     /// stdout is this regular file instead of a pipe
     pub stdout_file: Option<std::path::PathBuf>,
+    /// working directory of the child
+    pub cwd: Option<std::path::PathBuf>,
 }
 
 #[derive(Clone, Debug)]
@@ -55,6 +57,9 @@ pub fn run(bin: &Path, argv: &[String], hash_seed: u64, io: &Io) -> std::io::Res
             personality(ADDR_NO_RANDOMIZE);
             Ok(())
         });
+    }
+    if let Some(d) = &io.cwd {
+        c.current_dir(d);
     }
     c.stdin(Stdio::null());
     match &io.stdout_file {
